@@ -26,6 +26,14 @@ CHECKS["C14"] = dict(level="fault_enumeration", engine="tlc-trace",
    technique="trace validation of rejected-call actions (precondition computed in TLA+ from the pre-state) + allocation-failure enumeration",
    text="(a) 35% of the calls of TLC-generated histories are deliberately ill-formed; the trace specification decides from the verified pre-state whether a call must be rejected and then requires std::invalid_argument and every slot unchanged, and forbids exceptions on well-formed calls. (b) see DESIGN.md C14: every allocation index of scripted scenarios is made to fail.",
    note=POLY_NOTE, ref="§5 C14")
+CHECKS["C11"] = dict(level="model_checking", engine="tlc-trace",
+   technique="every enumerated primitive call is an action of Checked.tla / CheckedWide.tla (exact result in TLC integers / BigInt) whose post-condition is the property; PairTrace.tla compares bounded-coefficient and GMP builds on the same histories",
+   text="The harness enumerates (type, primitive, direction, operands) -- all pairs incl. infinities/NaN for int8/uint8, boundary-biased for 16/32/64-bit (powers of two +-1, integer square roots of the maximum, halves, thirds), small values for mpz/mpq -- and the specification recomputes the exact result and requires: relation bits true, class bits matching, direction honoured, overflow classified not wrapped, tightness for integer targets. Configuration clause: the library is rebuilt with checked int8 (thorough: int16, int32) coefficients, the polyhedron histories are executed on both builds and every step must agree or raise std::overflow_error.",
+   note="Trusted: TLC, BigInt.tla (base 2^14 limbs). Not covered: float/double/long double primitives (only through C12/C03), conversions between different types, string conversions.", ref="§5 C11")
+CHECKS["C19"] = dict(level="model_checking", engine="tlc-trace",
+   technique="PlusCal model of the Watchdog code model-checked by TLC over all signal placements; TLC-generated schedules executed on the real classes on a virtual clock through guarded yield hooks; recorded events validated against the property-level spec WatchTrace.tla",
+   text="WatchdogImpl.tla mirrors the bookkeeping code statement by statement and TLC checks never-early / at-most-once / not-after-death / in-order / prompt / armed for every interleaving of the timer signal (they hold when the signal never falls inside a call, and fail in the known race otherwise). WdSched.tla generates API-call schedules with the ticks that pass at every yield point of every call; the harness interposes setitimer/getitimer/sigaction, delivers the signal exactly when the real virtual timer expires (also inside the critical section), and WatchTrace.tla -- whose guards are the property -- validates every fire / idle / check event. The weight-based watcher is validated the same way with weight as time.",
+   note="Trusted: TLC, the 100-line virtual-clock harness, the yield hooks (add-only, guarded). Bounds: <= 3 watchdogs, delays <= 4 ticks, <= 7 calls, ticks only at statement boundaries. Promptness is asserted up to the ticks that elapsed inside calls. Three known findings (race when the signal is delivered inside a call).", ref="§5 C19")
 NOT_YET = {}
 
 
